@@ -236,7 +236,25 @@ impl fmt::Display for SimpleCommand {
         let i2 = self.words.iter().map(|x| &x.0 as &dyn fmt::Display);
         let i3 = self.redirs.iter().map(|x| x as &dyn fmt::Display);
 
-        if !self.assigns.is_empty() || !self.first_word_is_keyword() {
+        // A word can end with an unquoted backslash only if it ends the input.
+        // The backslash must remain last so that it does not escape the space
+        // that would otherwise separate it from the redirections.
+        let last_word = match (self.words.last(), self.assigns.last()) {
+            (Some((word, _)), _) => Some(word),
+            (None, Some(assign)) => match &assign.value {
+                Value::Scalar(word) => Some(word),
+                Value::Array(_) => None,
+            },
+            (None, None) => None,
+        };
+        let ends_with_backslash = matches!(
+            last_word.and_then(|word| word.units.last()),
+            Some(Unquoted(Literal('\\')))
+        );
+
+        if ends_with_backslash {
+            write!(f, "{}", i3.chain(i1).chain(i2).format(" "))
+        } else if !self.assigns.is_empty() || !self.first_word_is_keyword() {
             write!(f, "{}", i1.chain(i2).chain(i3).format(" "))
         } else {
             // We usually display the words before the redirections, but when
